@@ -185,3 +185,9 @@ def run(ctx):
     r5.floor(2, "carousel FDT facts")
     from . import c01
     c01.decoding_params_provenance(ctx, ctx.rule("C16.R6", "a packet seen before the FDT must not freeze decoding parameters the FDT will bring: " + c01.DECODING_TEXT, "WWF + value provenance (shared with C03.R6)"))
+    r7 = ctx.rule("C16.R7", "the FDT instance on the carousel is valid while it is on the wire, so a receiver that joins at any time can use it: Expires = "
+                            "ntp(now of this very publication) + duration, publish hands its own `now` down, and last_publish is recorded only once the "
+                            "instance was queued (shared with C10.R3)", "DEP + ARG + DOM")
+    from . import c10
+    c10.publication_rule(ctx, r7)
+    r7.floor(5, "expiry facts")
